@@ -358,6 +358,12 @@ func (repo *BlockRepository) Revert(ctx context.Context, height int) error {
 		return errors.New(fmt.Sprintf("Revert height %d above current height %d", height, repo.height))
 	}
 
+	// The newest file may never have been saved, or only partly. Persist it first so the
+	// truncation below starts from the current headers instead of a missing or stale file.
+	if err := repo.save(ctx); err != nil {
+		return errors.Wrap(err, "Failed to save before revert")
+	}
+
 	// Revert heights map
 	for removeHeight := repo.height; removeHeight > height; removeHeight-- {
 		hash, err := repo.getHash(ctx, removeHeight)
